@@ -52,6 +52,11 @@ func VH_C14_wipe() {
 		rt.Cover("no-bridge")
 	}
 	if rt.Choose(2) == 1 {
+		// a git-bug setting that is neither the identity nor a bridge (doc: webui.open)
+		_ = r.LocalConfig().StoreString("git-bug.webui.open", "false")
+		rt.Cover("other-git-bug-setting")
+	}
+	if rt.Choose(2) == 1 {
 		// nobody selected an identity in this clone
 		_ = r.LocalConfig().RemoveAll("git-bug.identity")
 		rt.Cover("no-identity-selected")
